@@ -30,9 +30,18 @@ func genC16(seed uint64, tier string) *world.Scenario {
 	sc.TempPoll = ms(500)
 	nf := r.Range(2, 4)
 	total := 0.0
+	// ids: f0, f1, ... - or ids a user might pick that differ in letter case only, or where one is the
+	// beginning of another (distinct ids all the same)
+	idOf := func(i int) string { return fmt.Sprintf("f%d", i) }
+	switch kernel.NewRand(seed, "c16.ids").Intn(5) {
+	case 0:
+		idOf = func(i int) string { return []string{"fan", "Fan", "FAN", "fAn"}[i] }
+	case 1:
+		idOf = func(i int) string { return []string{"cpu", "cpu2", "cpu20", "CPU"}[i] }
+	}
 	for i := 0; i < nf; i++ {
 		_, cid := addSensorCurve(sc, r, i, "file", constTemp(tempForCurve(r.Range(0, 255))), chip)
-		f := world.FanSpec{ID: fmt.Sprintf("f%d", i), Kind: "hwmon", Curve: cid, Chip: chip, Channel: i + 1, Algo: world.AlgoSpec{Kind: "direct"}}
+		f := world.FanSpec{ID: idOf(i), Kind: "hwmon", Curve: cid, Chip: chip, Channel: i + 1, Algo: world.AlgoSpec{Kind: "direct"}}
 		f.Plant = world.PlantSpec{MaxRpm: r.Range(800, 3000), StartThr: r.Range(0, 60), TauMs: kernel.Pick(r, 50, 300, 1500, 4000), InitRpm: r.Range(0, 1500)}
 		f.Plant.StopThr = f.Plant.StartThr
 		f.Driver = world.DriverSpec{InitMode: 2, InitPwm: 0, AutoPwm: 100, Quant: "mult", K: kernel.Pick(r, 16, 32, 51)}
